@@ -291,7 +291,16 @@ func (r *rawReq) mutate(rng *rand.Rand, which int) string {
 			return "header added"
 		}
 		k := rng.IntN(len(r.hdr))
-		switch rng.IntN(6) {
+		switch rng.IntN(7) {
+		case 6:
+			v := r.hdr[k][1]
+			if len(v) > 0 {
+				r.hdr[k][1] = v[:rng.IntN(len(v))]
+			}
+			if rng.IntN(2) == 0 {
+				r.hdr[k][1] = []string{"Bearer", "Bearer ", "bearer x", "B", " "}[rng.IntN(5)]
+			}
+			return "header value shortened: " + r.hdr[k][0] + "=" + r.hdr[k][1]
 		case 0:
 			r.hdr = append(r.hdr, r.hdr[k])
 			return "header duplicated: " + r.hdr[k][0]
